@@ -134,6 +134,14 @@ CLAIMED = {
              "cells, scalar and per-sample signals. Relational: kernel STDP with the shipped exponential kernels == delay-adjusted STDP (weights and "
              "delays); with all delays zero delay-adjusted == unadjusted KernelSTDP.",
         ref="6/C18"),
+    "C19": dict(
+        text="The three encoder classes (offline and online) and the functional encoders run on SYMBOLIC intensities in [0,1] (zero pattern forked) with every "
+             "random draw (exponential, Poisson, Bernoulli) a fresh symbolic variable constrained only by its documented support, so the verdict covers every "
+             "generator seed; IEEE specials modelled for zero intensities: boolean output with exactly `steps` time-first slices (or yielded slices), no spike "
+             "for a zero intensity, consecutive spikes of an element >= ceil(refrac/dt) steps apart (refrac None/dt/2dt/3dt, compensate on/off), scatter "
+             "indices in range, no exception. steps <= 4 (5), 1-2 elements, dt in {1.0,0.5}, frequency in {10,500,(1000)}. NOT covered: reproducibility under "
+             "the same Generator state, rate statistics.",
+        ref="6/C19"),
     "C20": dict(
         text="(i) interp(extrap(x)) == x for the 10 matching pairs and every extrapolation kernel == its documented closed form, linear interpolation "
              "between the brackets and equal to them at the ends - symbolic sample, brackets, sample time. (ii) Poisson/Normal/LogNormal with symbolic "
